@@ -149,9 +149,11 @@ C04R(e) ==
 C05RC(e) ==
   UnionOver(Len(e.runs), LAMBDA i :
     UnionOver(Len(e.runs[i].cuts), LAMBDA j :
-      LET c == e.runs[i].cuts[j] IN
+      LET c == e.runs[i].cuts[j]
+          \* (a run flagged "populated" read every cut into a destination that already held the complete value)
+          who == e.runs[i].rk.k \o (IF Has(e.runs[i], "populated") THEN "/populated-destination" ELSE "") IN
       IF Has(c, "unsupported") THEN {}
-      ELSE Tag(c.st # 0, "accepted-prefix:" \o e.runs[i].rk.k) \cup Tag(~Has(c, "oob"), "oob:" \o e.runs[i].rk.k)))
+      ELSE Tag(c.st # 0, "accepted-prefix:" \o who) \cup Tag(~Has(c, "oob"), "oob:" \o who)))
 
 \* C06: the size estimate is an upper bound (exact without handles); buffer writers respect capacity
 C06WC(e) ==
